@@ -56,6 +56,7 @@ from twisted.internet import defer, task
 from twisted.internet.defer import CancelledError as t_CancelledError
 from twisted.internet.defer import DeferredList, inlineCallbacks, returnValue
 from twisted.internet.endpoints import HostnameEndpoint
+from twisted.internet.error import ConnectingCancelledError
 from twisted.python.compat import nativeString
 from twisted.python.compat import unicode as _unicode
 from twisted.python.failure import Failure
@@ -995,7 +996,11 @@ class KafkaClient(object):
         # reload metadata whether the partition is not available
         # or has no leader (broker is None)
         if self.topics_to_brokers.get(key) is None:
-            yield self.load_metadata_for_topics(topic)
+            loaded = yield self.load_metadata_for_topics(topic)
+            if loaded is None:
+                # load_metadata_for_topics() reports cancellation this way. It was our
+                # caller who cancelled: the request must not be sent after all.
+                raise t_CancelledError()
 
         if key not in self.topics_to_brokers:
             raise PartitionUnavailableError("%s not available" % str(key))
@@ -1184,12 +1189,18 @@ class KafkaClient(object):
             ep = self._endpoint_factory(self.reactor, host, port)
             try:
                 protocol = yield ep.connect(_bootstrapFactory)
+            except (t_CancelledError, ConnectingCancelledError) as e:
+                # Our caller cancelled the operation: don't go on to the next host.
+                raise t_CancelledError() from e
             except Exception as e:
                 log.debug("%s: bootstrap connect to %s:%s -> %s", self, host, port, e)
                 continue
 
             try:
                 response = yield protocol.request(request).addTimeout(self.timeout, self.reactor)
+            except t_CancelledError:
+                # Cancelled by our caller (a timeout arrives as TimeoutError).
+                raise
             except Exception:
                 log.debug(
                     "%s: bootstrap %s to %s:%s failed",
